@@ -128,12 +128,21 @@ class World:
         return sorted(out)
 
 
+def _is_hook_finder(f):
+    """A meta-path entry installed by jaxtyping's import hook (recognised by the module of its class, not by its name)."""
+    cls = f if isinstance(f, type) else type(f)
+    return (getattr(cls, "__module__", "") or "").startswith("jaxtyping")
+
+
 def soft_restart(world):
     for name in list(sys.modules):
         if name.split(".")[0] in TOPS:
             del sys.modules[name]
-    sys.meta_path[:] = [f for f in sys.meta_path if type(f).__name__ != "_JaxtypingFinder"]
-    _ih.Typechecker.lookup.clear()
+    sys.meta_path[:] = [f for f in sys.meta_path if not _is_hook_finder(f)]
+    try:
+        _ih.Typechecker.lookup.clear()
+    except AttributeError:  # internal layout changed: the registry is then simply not reset (entries are keyed by checker hash)
+        pass
     _be.cache_from_source = _ORIG_CFS
     _be._write_atomic = _ORIG_WA
     for k in list(sys.path_importer_cache):
@@ -369,7 +378,7 @@ def run_one(world, run, bytecode, stats):
         # informational (white-box): the process ends here, so by itself this is not a violation of C18;
         # its behavioural consequences (a later import cached under the wrong name) are what the oracle checks
         stats.inc("whitebox:cache_from_source_left_patched_at_end_of_run")
-    remaining = sum(1 for f in sys.meta_path if type(f).__name__ == "_JaxtypingFinder")
+    remaining = sum(1 for f in sys.meta_path if _is_hook_finder(f))
     expect_remaining = sum(1 for h in hooks if h["active"])
     # only 'after the last uninstall nothing remains' is demanded: how many finder objects serve the active
     # hooks is an implementation choice (a ref-counted shared finder would be fine)
